@@ -438,6 +438,11 @@ func (ri *reflectInspector) recordArgReflected(val ssa.Value, visited map[ssa.Va
 
 		ri.recursivelyRecordUsedForReflect(val.Type())
 		return val
+	default:
+		// Any other way to produce the value, such as a function call's result,
+		// a field or element load, a type assertion or a phi node:
+		// whatever it came from, a value of this type reaches reflection.
+		ri.recursivelyRecordUsedForReflect(val.Type())
 	}
 
 	return nil
